@@ -310,6 +310,10 @@ func (g *ExprGen) leaf(p scopePath, depth int) string {
 		if p.Val.IsValid() && p.Val.Kind() == reflect.Slice && p.Val.Type().Elem().Kind() == reflect.Uint8 && g.R.Chance(0.6) {
 			// []byte values are matched as text
 			re := g.R.Pick(regexPool)
+			if b := p.Val.Bytes(); hit && len(b) >= 4 {
+				// anchored on the current contents: an in-place edit of the buffer flips it
+				re = "^" + regexp.QuoteMeta(string(b[:2+g.R.Intn(3)]))
+			}
 			if neg {
 				return sel + " not matches " + g.quote(re)
 			}
